@@ -268,12 +268,8 @@ def writeCert (c : CertContent) : M Unit :=
     modFiles fun f => { f with certFile := some c }
     emit (.writeCert c))
 
-/-- `acme_proto.rs:227-282` after `get_key_pair`: (old: early key write,) CSR, finalize, poll until
-`valid`, certificate URL present. -/
-def fetchPre (v : Variant) (k : KeyId) (isNew : Bool) : M Unit := do
-  -- before e6c79aa `gen_key_pair` stored the new key at once
-  (if isNew && v.keyWriteEarly then writeKey k else pure ())
-  emit (.csr k)
+/-- `acme_proto.rs:253-282`: finalize, poll until `valid`, certificate URL present. -/
+def finalizeOrder : M Unit := do
   let w ← getW
   let r ← exchange .finalize w.acc.curKey
   match r with
@@ -281,6 +277,13 @@ def fetchPre (v : Variant) (k : KeyId) (isNew : Bool) : M Unit := do
     let o ← pollOrder .valid .orderValidPoll Gen.DEFAULT_POOL_NB_TRIES
     if o.hasCertUrl then pure () else failAt .noCertUrl
   | _ => failAt .finalize
+
+/-- `acme_proto.rs:227-282` after `get_key_pair`: (old: early key write,) CSR, finalize. -/
+def fetchPre (v : Variant) (k : KeyId) (isNew : Bool) : M Unit := do
+  -- before e6c79aa `gen_key_pair` stored the new key at once
+  (if isNew && v.keyWriteEarly then writeKey k else pure ())
+  emit (.csr k)
+  finalizeOrder
 
 /-- `http::get_certificate` (`acme_proto/http.rs:132-149`): the body as text, whatever it is. -/
 def downloadCert : M CertBody := do
